@@ -80,6 +80,10 @@ def run_arc(ck, case, reqs, pending):
         if case["cw"]:
             pts = pts[::-1]
     be, vs, es = make_big_edge(pts)
+    if case["seed"] % 2:
+        # read-only public calls made before the measured ones (a user tabulating mean curvatures first) must not change them
+        be.calculate_total_curvature(); be.calculate_total_curvature(normalized=True); be.get_vertices_ids()
+        ck.count("prior_reads")
     kap = [float(x) for x in be.calculate_curvature()]
     tot = float(be.calculate_total_curvature(normalized=False))
     n = len(pts)
@@ -190,6 +194,11 @@ def run_tissue(ck, case, reqs, pending):
         pm = f.pressure_matrices[0]
         sol = impl.quiet(f.solve_pressure, when=0, method="lagrange_pressure")
         return pm, [float(c.pressure) for c in frame.cells.values()]
+    if case["seed"] % 2:
+        for be in frame.big_edges.values():
+            if len(be.vertices) > 2:
+                be.calculate_total_curvature(); be.calculate_curvature()
+        ck.count("prior_reads")
     pm, press = solve()
     L = np.array(pm.lhs_matrix, dtype=float); rhs = np.array(pm.rhs_matrix, dtype=float)
     removed = [int(x) for x in pm.removed_columns]
